@@ -31,6 +31,8 @@ type intEnv struct {
 	opaque    func(ssa.Value) (int64, bool) // rule-supplied inputs for designated sub-expressions
 	watch     func(ssa.Instruction, intEnv) // called for every instruction of every block the walker executes
 	skipLoops bool                          // step over inner loops whose condition cannot be evaluated
+	offs      map[ssa.Value]int64           // for slice-valued phis: start offset within bases[phi]
+	bases     map[ssa.Value]ssa.Value
 }
 
 func wrapToType(x int64, t types.Type) int64 {
@@ -523,6 +525,14 @@ func walkBlocks(b, from *ssa.BasicBlock, env intEnv, stop func(*ssa.BasicBlock) 
 				if !isIntegerT(p.Type()) && !isBoolT(p.Type()) {
 					if n, ok := lenOfValue(p.Edges[pi], env, 0); ok {
 						env.lens[p] = n
+						if env.offs != nil {
+							if b, lo, _, ok := extentOf(p.Edges[pi], env, 0); ok {
+								env.offs[p], env.bases[p] = lo, b
+							} else {
+								delete(env.offs, p)
+								delete(env.bases, p)
+							}
+						}
 					} else {
 						delete(env.lens, p)
 					}
@@ -738,4 +748,46 @@ func uniqueStore(a *ssa.Alloc) ssa.Value {
 		return sv
 	}
 	return nil
+}
+
+// extentOf: v denotes base[lo:hi] for a value base whose length env fixes.
+func extentOf(v ssa.Value, env intEnv, d int) (base ssa.Value, lo, hi int64, ok bool) {
+	if d > 12 {
+		return nil, 0, 0, false
+	}
+	if b, have := env.bases[v]; have {
+		return b, env.offs[v], env.offs[v] + env.lens[v], true
+	}
+	switch x := v.(type) {
+	case *ssa.ChangeType:
+		return extentOf(x.X, env, d+1)
+	case *ssa.Slice:
+		b, l, h, ok := extentOf(x.X, env, d+1)
+		if !ok {
+			return nil, 0, 0, false
+		}
+		nl, nh := l, h
+		if x.Low != nil {
+			k, ok := evalInt(x.Low, env, 0)
+			if !ok {
+				return nil, 0, 0, false
+			}
+			nl = l + k
+		}
+		if x.High != nil {
+			k, ok := evalInt(x.High, env, 0)
+			if !ok {
+				return nil, 0, 0, false
+			}
+			nh = l + k
+		}
+		if nl < l || nh < nl {
+			return nil, 0, 0, false
+		}
+		return b, nl, nh, true
+	}
+	if n, ok := env.lens[v]; ok {
+		return v, 0, n, true
+	}
+	return nil, 0, 0, false
 }
